@@ -94,16 +94,20 @@ def main(argv=None):
     for e in load_known(prop):
         if e["status"] != "known":
             continue
-        w = dict(e["witness"])
-        w["cfg"] = dict(w["cfg"], mask=[])
-        r = replay_subprocess(w)
-        if r["verdict"] == "violation":
-            active.append(e["id"])
-            line = "KNOWN-FINDING: property=%s %s: %s" % (prop, e["id"], e["what"])
+        present = []
+        for wname, w in sorted(e["witnesses"].items()):
+            w = dict(w)
+            w["cfg"] = dict(w["cfg"], mask=[])
+            r = replay_subprocess(w)
+            if r["verdict"] == "violation":
+                active.append("%s/%s" % (e["id"], wname))
+                present.append(wname)
+            else:
+                print("note: listed finding %s no longer reproduces for '%s' (verdict %s): mask NOT applied there" % (e["id"], wname, r["verdict"]))
+        if present:
+            line = "KNOWN-FINDING: property=%s %s [%s]: %s" % (prop, e["id"], ",".join(present), e["what"])
             known_lines.append(line)
             print(line)
-        else:
-            print("note: listed finding %s no longer reproduces (verdict %s): mask NOT applied" % (e["id"], r["verdict"]))
     for o in obligations:
         o["cfg"] = dict(o["cfg"], mask=list(active))
 
